@@ -36,4 +36,11 @@ def jobs(tier):
                  assumes=["inductive hypothesis: counts within limits before the step"],
                  bounds="one Hello completing one incomplete connection; completed count, per-user count and both limits symbolic up to 1000; any single failing step",
                  shape="connection completion step"))
+    for ns in (0, 1, 2, 3):
+        J.append(Job(name=f"accept_gate.S{ns}", group="C13.accept_gate", harness="harness/C13_accept_gate.c", defines={"NSRV": ns}, real=["dbus/dbus-list.c"], env=["assert_stubs.c", "pool_lock.c", "mem.c"],
+                     checks="assert", unwind=6, timeout=300, encodes=["bus_context_check_all_watches", "bus_context_get_max_incomplete_connections"],
+                     stubs=["incomplete-connection count = ghost integer changed by one accept / drop event", "_dbus_server_toggle_all_watches = per-server counter"],
+                     assumes=["inductive hypothesis J: watches enabled <=> count < limit, count <= limit", "accept happens only through an enabled watch; every change of the count is followed by the gate call (setup_connection by reading; completion / teardown by the connection.* jobs)",
+                              "the limit does not change between events (a reload that lowers it below the current count is outside the claim)"],
+                     bounds=f"{ns} listening server(s); limit 1..100000, count 0..limit symbolic; one accept or one drop", shape=f"accept gate step, {ns} server(s)"))
     return J
